@@ -3,7 +3,7 @@ from .. import sessprop
 
 KINDS = {'cfg', 'srv', 'rd', 'ev', 'wr', 'wrf', 'call', 'stop', 'escape', 'hang', 'end'}
 PLAIN = {"poll": 5, "ping_rate": 0, "ping_timeout": 0, "close_timeout": 0, "auto_pong": True}
-AT = {"connecting", "connected", "ready", "text", "ping", "closing", "closed"}
+AT = {"connecting", "connected", "ready", "text", "ping", "closing", "closed", "disconnected"}
 
 
 def instances(tier):
